@@ -68,6 +68,68 @@ def block_boundaries(prog: Program, rep, RID: str):
         rep.violation(RID, key, f"the three scans do not alternate skip-non-header / consume-header / advance-to-next-header (polarities {pol})", f.loc())
 
 
+def exits_after_validation(prog: Program, rep, RID: str):
+    f = prog.function("flowpaths.utils.graphutils", "read_graph")
+    cons_loop = None
+    for st in f.node.body:
+        if isinstance(st, ast.For) and "constraint" in norm(st.iter) and any(isinstance(x, ast.Raise) for x in ast.walk(st)):
+            cons_loop = st
+    if cons_loop is None:
+        raise AnalysisError("read_graph: constraint validation loop not found")
+    rets = [r for r in walk_no_nested(f.node) if isinstance(r, ast.Return)]
+    if not rets:
+        raise AnalysisError("read_graph: no return found")
+    for r in rets:
+        key = f"read_graph:exit@{'/'.join(norm(t)[:30] for t, p in enclosing_tests(f.node, r)) or 'end'}"
+        if r.lineno < cons_loop.lineno:
+            rep.violation(RID, key, f"read_graph returns (under {[norm(t) for t, p in enclosing_tests(f.node, r)]}) before the edge lines are parsed and the constraint "
+                          "edges validated: such a block (vertex count 0) is accepted with malformed edge lines or constraints naming absent edges, its listed "
+                          "edges are dropped and n / m / w are not stored", f.loc(r))
+            continue
+        # stores of n, m, w that precede this return on its path (top level, or in the block the return is in)
+        stored = set()
+        chain = [id(t) for t, p in enclosing_tests(f.node, r)]
+        for st in walk_no_nested(f.node):
+            if isinstance(st, ast.Assign) and isinstance(st.targets[0], ast.Subscript) and norm(st.targets[0].value) == "G.graph" and \
+                    isinstance(st.targets[0].slice, ast.Constant) and st.lineno < r.lineno:
+                own = [id(t) for t, p in enclosing_tests(f.node, st)]
+                if own == chain[:len(own)]:
+                    stored.add(st.targets[0].slice.value)
+        if {"n", "m", "w"} <= stored:
+            rep.ok(RID, key, "after the constraint check, with n, m, w stored", f.loc(r))
+        else:
+            rep.violation(RID, key, f"this exit of read_graph leaves {sorted({'n', 'm', 'w'} - stored)} unset in G.graph", f.loc(r))
+    # finite weights
+    conv = [st for st in ast.walk(f.node) if isinstance(st, ast.Assign) and isinstance(st.value, ast.Call) and dotted(st.value.func) == "float" and
+            isinstance(st.targets[0], ast.Name)]
+    if not conv:
+        raise AnalysisError("read_graph: weight conversion float(...) not found")
+    wname = conv[0].targets[0].id
+    finite = [st for st in ast.walk(f.node) if isinstance(st, ast.If) and any(isinstance(b, ast.Raise) for b in st.body) and
+              re.search(r"(math\.)?(isfinite|isnan|isinf)\(%s\)" % wname, norm(st.test))]
+    key = "read_graph:finite-weight"
+    if finite and "isfinite" in norm(finite[0].test) or (finite and "isnan" in norm(finite[0].test) and "isinf" in norm(finite[0].test)):
+        rep.ok(RID, key, f"a weight that float() accepts but is not a finite number (nan, inf) is rejected: `{norm(finite[0].test)[:70]}`", f.loc(finite[0]))
+    else:
+        rep.violation(RID, key, f"the weight is validated by float() alone, which accepts 'nan', 'inf' and 'Infinity': such an edge is stored with a nan / infinite flow "
+                      "instead of raising ValueError for the non-numeric weight", f.loc(conv[0]))
+    # content before the first header
+    g = prog.function("flowpaths.utils.graphutils", "read_graphs")
+    outer = [w for w in g.node.body if isinstance(w, ast.While)]
+    if not outer:
+        raise AnalysisError("read_graphs: outer scanning loop not found")
+    first_skip = next((w for w in outer[0].body if isinstance(w, ast.While)), None)
+    if first_skip is None:
+        raise AnalysisError("read_graphs: the loop skipping to the next header not found")
+    key = "read_graphs:content-before-first-header"
+    rej = [st for st in ast.walk(first_skip) if isinstance(st, ast.If) and any(isinstance(b, ast.Raise) for b in st.body) and "strip()" in norm(st.test)]
+    if rej:
+        rep.ok(RID, key, f"non-blank lines that belong to no block are rejected: `{norm(rej[0].test)}`", g.loc(rej[0]))
+    else:
+        rep.violation(RID, key, "the loop that moves to the next header skips any line: content before the first '#' line (a first header that lost its '#', a file "
+                      "without headers) is dropped without an error and the file comes back with fewer graphs", g.loc(first_skip))
+
+
 def check(prog: Program, rep):
     rep.rule("C20.R1", "error discipline of read_graph / read_graphs", floor=9)
     val.check_sites(prog, rep, "C20.R1", only_funcs=lambda k: k.endswith(":read_graph"))
@@ -173,9 +235,16 @@ def check(prog: Program, rep):
                 isinstance(st.targets[0].slice, ast.Constant) and st.targets[0].slice.value in want:
             k = st.targets[0].slice.value
             key = f"read_graph:stored-{k}"
-            if st.lineno > last_add and re.search(want[k], norm(st.value)):
+            tests_ = [norm(t_) for t_, pol_ in enclosing_tests(f.node, st) if pol_]
+            if st.lineno > last_add and k == "w" and isinstance(st.value, ast.Constant) and st.value.value == 0 and \
+                    any(t_.replace(" ", "") in ("G.number_of_edges()==0", "0==G.number_of_edges()", "notG.number_of_edges()") for t_ in tests_):
+                rep.ok("C20.R2", key + ":edgeless", "a block without edges stores width 0 (there is no source-sink graph to measure)", f.loc(st))
+            elif st.lineno > last_add and re.search(want[k], norm(st.value)):
                 rep.ok("C20.R2", key, f"G.graph['{k}'] = {norm(st.value)} after the edge loop", f.loc(st))
             else:
                 rep.violation("C20.R2", key, f"G.graph['{k}'] = {norm(st.value)} is not computed from the finished graph", f.loc(st))
     rep.rule("C20.R4", "block boundaries of read_graphs depend only on `line starts with '#'`", floor=4)
     block_boundaries(prog, rep, "C20.R4")
+    rep.rule("C20.R5", "every block is validated and gets its counts: no exit before the constraint check, n / m / w stored on every exit; weights are finite "
+             "numbers; content before the first header is rejected", floor=4)
+    exits_after_validation(prog, rep, "C20.R5")
